@@ -19,6 +19,20 @@ add("C05", A, "bounded symbolic: on every explored path of every configuration (
 EXTRA = os.path.join(HERE, "tools", "manifest_extra.py")
 if os.path.exists(EXTRA):
     exec(open(EXTRA).read())
+SUPP = {
+ "C01": "; supplementary float64 probe of pinned regular points (exact zeros, exponent 0) against closed forms",
+ "C02": "; supplementary float64 probe of pinned regular points (exact zeros, exponent 0) against closed forms",
+ "C06": "; supplementary float64 probes of autograd.misc.optimizers / fixed_points (read-only start points, kept callback iterates)",
+ "C07": "; supplementary float64 probes: LAPACK-backed primitives (first order, reverse-over-reverse, VJP differentiated w.r.t. its cotangent at zero) and second differences where the solver answers unknown",
+ "C08": "; supplementary float64 probes: LAPACK double-VJP probe, orders 2-3 through misc.fixed_point",
+ "C11": "; supplementary float64 second-order probe of complex indexing programs at real-valued complex points",
+ "C15": "; supplementary float64 probe of LAPACK-backed primitives with their option values (first order)",
+ "C19": "; supplementary replay: every primitive's configurations differentiated in 8 (16) different orders in fresh interpreters (module-level state), NumPy global error state across raising differentiations",
+ "C20": "; supplementary replay on real threads: exhaustive / sampled interleavings of array programs with scheduling points inside forward and backward passes, at trace entry/exit, and at every call inside autograd/numpy",
+}
+for _p, _t in SUPP.items():
+    if _p in CHECKS and _t not in CHECKS[_p]["technique"]:
+        CHECKS[_p]["technique"] += _t
 ALL = ["C%02d" % i for i in range(1, 21)]
 NA = {}
 NA_FILE = os.path.join(HERE, "tools", "not_applicable.json")
